@@ -34,6 +34,13 @@ def metrics():
     M['2D-sphere'] = ([th, ph], sp.Matrix([[1, 0], [0, sp.sin(th) ** 2]]))
     M['2D-nondiag'] = ([x, y], sp.Matrix([[1 + x ** 2, x * y],
                                           [x * y, 2 + y ** 2]]))
+    # coordinates declared with assumptions (as users do for radii, times)
+    xr, yr = sp.symbols('x y', real=True)
+    rp, thp = sp.symbols('r theta', positive=True)
+    M['2D-nondiag-real'] = ([xr, yr], sp.Matrix(
+        [[1 + xr ** 2, xr * yr], [xr * yr, 2 + yr ** 2]]))
+    M['2D-polar-positive'] = ([rp, thp], sp.Matrix(
+        [[1 + rp, 0], [0, rp ** 2 * (2 + sp.cos(thp))]]))
     # zero pattern of the metric differs from that of its inverse
     M['2D-null'] = ([x, y], sp.Matrix([[0, 1], [1, 2 + x * y + y ** 2]]))
     M['3D-chain'] = ([x, y, z], sp.Matrix(
@@ -171,7 +178,8 @@ def explore(task):
 
 def plans(tier, seed):
     P = []
-    small = ['2D-sphere', '2D-nondiag', '2D-null', '3D-diag',
+    small = ['2D-sphere', '2D-nondiag', '2D-nondiag-real',
+             '2D-polar-positive', '2D-null', '3D-diag',
              '3D-nondiag-simple', '3D-chain', '4D-FLRW']
     big = ['3D-nondiag-full', '4D-conformally-flat', '4D-lapse-shift',
            '4D-nondiag-full']
@@ -181,7 +189,8 @@ def plans(tier, seed):
         for m in big:
             P.append((m, False, 1 if m == '4D-nondiag-full' else 2, 60,
                       seed))
-        for m in ('2D-sphere', '2D-nondiag', '2D-null', '4D-FLRW'):
+        for m in ('2D-sphere', '2D-nondiag', '2D-nondiag-real', '2D-null',
+                  '4D-FLRW'):
             P.append((m, True, 10, 100, seed))
         P.append(('3D-diag', True, 1, 60, seed))
         P.append(('3D-nondiag-simple', True, 2, 60, seed))
@@ -209,7 +218,7 @@ def main(tier):
                     f"at depth {r['depth']} ({r['transitions']} transitions)")
         for b in r['bad']:
             diag = 'diagonal' if 'diag' in t[0] and 'nondiag' not in t[0] \
-                or t[0] in ('2D-sphere', '4D-FLRW',
+                or t[0] in ('2D-sphere', '4D-FLRW', '2D-polar-positive',
                             '4D-conformally-flat') else 'non-diagonal'
             run.violation(f"C15:{b[0]}:{b[1]}:simplify={t[1]}:{diag}",
                           f"metric {t[0]} simplify={t[1]} after {b[2]}: "
